@@ -755,6 +755,25 @@ func c02Enumerate(quick bool, visit func(label string, decls gd) bool) {
 			}
 		}
 	}
+	// Level G (3): xpaths that leave the cursor by a spelled-out axis, evaluated from cursors that have no
+	// children (an empty element, an empty JSON container) as well as from ones that have
+	for _, anchor := range []string{"c", "a", "d", "*[not(*)]"} {
+		inner := gd{}
+		for i, xp := range []string{"following-sibling::*[1]", "preceding-sibling::*[1]", "ancestor::r/c", "self::c/../a[1]", "*[1] | ../c", "parent::r/@k", "following::a[1]", "ancestor-or-self::*[last()]/c", "descendant-or-self::c"} {
+			inner[fmt.Sprintf("x%d", i)] = gd{"xpath": xp}
+		}
+		if !visit("G:axes-from-a-childless-cursor", fo(gd{"object": gd{"o": gd{"xpath": anchor, "object": inner}}})) ||
+			!visit("G:axes-from-a-childless-cursor", fo(gd{"object": gd{"l": gd{"array": []interface{}{gd{"xpath": anchor, "object": inner}}}}})) {
+			return
+		}
+		var elems []interface{}
+		for _, xp := range []string{"following-sibling::*", "preceding-sibling::*", "ancestor::*", "self::c | ../a"} {
+			elems = append(elems, gd{"xpath": xp})
+		}
+		if !visit("G:axes-from-a-childless-cursor", fo(gd{"object": gd{"o": gd{"xpath": anchor, "object": gd{"all": gd{"array": elems}}}}})) {
+			return
+		}
+	}
 	// Level D: degenerate declarations - empty object, empty array, bare field - alone, as siblings of
 	// each other in every combination and order (equal-looking texts must not share results), through
 	// templates, nested, with every option
